@@ -483,9 +483,9 @@ fn exhaustive_blocks(max_log_n: u8) -> Vec<Vec<BeCase>> {
 
 pub fn run(ctx: &Ctx) {
     let t = ctx.tier;
-    ctx.run_sub("ring_ops_vs_model", t.pick(40_000, 600_000), 64, || strategy(10), test);
-    ctx.run_sub("ring_ops_vs_model_large_n", t.pick(2_000, 30_000), 32, || strategy(12), test);
-    ctx.run_sub("group_laws", t.pick(6_000, 90_000), 32, law_strategy, law_test);
+    ctx.run_sub("ring_ops_vs_model", t.pick(400_000, 4_000_000), 64, || strategy(10), test);
+    ctx.run_sub("ring_ops_vs_model_large_n", t.pick(20_000, 200_000), 32, || strategy(12), test);
+    ctx.run_sub("group_laws", t.pick(60_000, 600_000), 32, law_strategy, law_test);
     ctx.run_enum("exhaustive_k_and_g_small_n", true, exhaustive_blocks(t.pick(5, 6)), test);
 }
 
